@@ -170,6 +170,27 @@ impl<'a> LuaGen<'a> {
         if self.r.chance(1, 14) {
             return self.static_table_stmts(&i);
         }
+        if depth > 0 && self.r.chance(1, 22) {
+            // a control header that holds a function literal with a statement of its own, followed IN THE SAME HEADER by a
+            // call / index / argument naming a global that nothing defines: it is read while the header is walked, once
+            self.bump("header_closure_then_undefined");
+            let u = format!("undefined_h{}", self.r.below(4));
+            let lam = format!("(function({}) local {} = {} end)", self.local_name(), self.local_name(), self.expr(1));
+            let tail = match self.r.below(4) {
+                0 => format!("{u}(1)"),
+                1 => format!("{}[{u}]", self.name()),
+                2 => format!("{}({u})", self.name()),
+                _ => format!("{u}.f({u})"),
+            };
+            let body = self.block(depth - 1, ind + 1);
+            return match self.r.below(5) {
+                0 => format!("{i}if {lam} and {tail} then\n{body}{i}end\n"),
+                1 => format!("{i}while {lam} == {tail} do\n{body}{i}  break\n{i}end\n"),
+                2 => format!("{i}for {} = 1, {lam}, {tail} do\n{body}{i}end\n", self.local_name()),
+                3 => format!("{i}for {} in {lam}, {tail} do\n{body}{i}end\n", self.local_name()),
+                _ => format!("{i}if {} then\n{i}elseif {lam} or {tail} then\n{body}{i}end\n", self.name()),
+            };
+        }
         let k = if depth == 0 { self.r.below(8) } else { self.r.below(20) };
         match k {
             0 | 1 | 2 => {
@@ -227,7 +248,15 @@ impl<'a> LuaGen<'a> {
                 self.bump("repeat");
                 let b = self.block(depth - 1, ind + 1);
                 // a `return` inside repeat must be last before `until`: block() guarantees that
-                format!("{i}repeat\n{}{i}until {}\n", b, self.expr(2))
+                // the condition is evaluated inside the body's scope: one time in four it is (or contains) a function literal
+                // called on the spot, whose parameters and locals come from the same small name pool as the body's
+                let cond = if self.r.chance(1, 4) {
+                    self.bump("until_closure");
+                    format!("({})({})", self.function_expr(depth.min(2)), self.name())
+                } else {
+                    self.expr(2)
+                };
+                format!("{i}repeat\n{}{i}until {}\n", b, cond)
             }
             11 | 12 => {
                 self.bump("if");
